@@ -93,8 +93,8 @@ def check_C15(tier, seed):
     def build_lib(wd, mc_stats):
         ws = []
         cache = {}
-        schemas = vlib.REPR if tier == "quick" else vlib.ALL
-        n1 = 30 if tier == "quick" else 300
+        schemas = vlib.quick_schemas(seed) if tier == "quick" else vlib.ALL
+        n1 = 20 if tier == "quick" else 300
         for s in schemas:
             st, sc, st2, sc2 = checks._std_graphs(wd, mc_stats, vlib.family(s), cache)
             r = random.Random(seed * 271 + vlib.ALL.index(s))
@@ -110,7 +110,7 @@ def check_C15(tier, seed):
         mc_stats.append({"instance": res["instance"], "states": res["states"], "transitions": res["generated"]})
         singles = [sq for sq in seqs if len(sq) == 1]
         ws = []
-        schemas = vlib.REPR if tier == "quick" else vlib.ALL
+        schemas = vlib.quick_schemas(seed) if tier == "quick" else vlib.ALL
         for s in schemas:
             r = random.Random(seed * 277 + vlib.ALL.index(s))
             sc = []
